@@ -681,9 +681,17 @@ def body_operator(c):
             return res.fail("stale_density", {"joint": lp0, "expected": lp_cur, "step": nsteps})
         rec = []
         with recording(rec):
-            h = op.step()
+            h, exc = guarded(op.step)
         nsteps += 1
         att = _attempts(rec)
+        if exc is not None:
+            # the momentum is drawn inside step(): whether this trajectory is one the property speaks about is
+            # only known afterwards. A raise is a failure unless the exact trajectory for the momentum that was
+            # being integrated leaves the guarded region (divergence: overflow, non-finite rate matrix, ...)
+            if att and att[-1][0].shape == (d,) and _reference(c, orc, q_cur, att[-1][0], eps, L, minv)[2] is not None:
+                _lab(res, "raised_outside_guard:" + type(exc).__name__)
+                return res
+            raise exc
         if not att:
             raise RuntimeError("harness: no momentum draw recorded (HMCOperator no longer calls Hamiltonian.sample_momentum?)")
         for p0, _ in att:
